@@ -387,3 +387,19 @@ pub mod small {
         sophia_api::test_graph_impl!(light_graph, LightGraph);
     }
 }
+
+#[cfg(sophia_verif)]
+impl<TI: TermIndex> GenericLightGraph<TI> {
+    /// Verification hook: access to the underlying term index.
+    pub fn verif_term_index(&self) -> &TI {
+        &self.terms
+    }
+}
+
+#[cfg(sophia_verif)]
+impl<TI: TermIndex> GenericFastGraph<TI> {
+    /// Verification hook: access to the underlying term index.
+    pub fn verif_term_index(&self) -> &TI {
+        &self.terms
+    }
+}
